@@ -20,6 +20,7 @@ type Config struct {
 	maxPaths       int
 	maxDepth       int
 	pipeTimeoutMS  int
+	crossSolver    string
 	tier           string
 }
 
@@ -66,6 +67,9 @@ type Interp struct {
 	crossChecked int
 	uniq         map[string]Value // unique.Make interning
 	initNotes    []string
+	qcache       map[string]cacheEntry
+	qcacheHits   int
+	focus        []*Term
 	rtErrT       types.Type
 }
 
@@ -95,7 +99,7 @@ func NewInterp(prog *ssa.Program, cfg *Config) *Interp {
 	in := &Interp{prog: prog, tb: NewTB(), cfg: cfg,
 		globals: map[*ssa.Global]*Cell{}, inited: map[*ssa.Package]bool{}, initing: map[*ssa.Package]bool{},
 		poisoned: map[*ssa.Global]string{}, consts: map[*ssa.Const]Value{}, summ: map[*ssa.Function]*summaryInfo{},
-		uniq: map[string]Value{}}
+		uniq: map[string]Value{}, qcache: map[string]cacheEntry{}}
 	in.solver = NewSolver(cfg.pipeTimeoutMS)
 	in.epoch = 1
 	return in
